@@ -49,7 +49,8 @@ import re
 from ..cfg import CFG
 from ..core import (AnalysisError, call_name, const_str, dotted, kwarg,
                     last_attr, names_in, qualname, short, txt, walk)
-from ..lib_C02 import Arr, Ev, Feat, Mini, ModelFault, NS, numpy_model
+from ..lib_C02 import (Arr, ClassModel, Ev, Feat, Mini, ModelFault, NS,
+                       SelfModel, numpy_model)
 
 ASSUMPTIONS = [
     "NOT decided: that each estimator equals its reference (histogram "
@@ -705,6 +706,22 @@ class Axes:
                 return
 
 
+def data_names(e):
+    """names whose *values* flow into `e` (names that only select
+    elements – subscript indices – do not)"""
+    out = set()
+    stack = [e]
+    while stack:
+        n = stack.pop()
+        if isinstance(n, ast.Name):
+            out.add(n.id)
+        elif isinstance(n, ast.Subscript):
+            stack.append(n.value)
+        else:
+            stack.extend(ast.iter_child_nodes(n))
+    return out
+
+
 def scaling_calls(func):
     out = []
     for c in [n for n in walk(func) if isinstance(n, ast.Call)]:
@@ -766,7 +783,8 @@ def r122(ctx, repo):
         for _ in range(20):
             grew = False
             for n in walk(func):
-                if isinstance(n, ast.Assign) and names_in(n.value) & scaled:
+                if isinstance(n, ast.Assign) and data_names(
+                        n.value) & scaled:
                     for tg in n.targets:
                         for t in (tg.elts if isinstance(
                                 tg, ast.Tuple) else [tg]):
@@ -837,11 +855,17 @@ def r122(ctx, repo):
             elts = r.value.elts if isinstance(
                 r.value, ast.Tuple) else [r.value]
             for e in elts:
+                a = ax.of(e)
+                if len(a) != 1 or not (data_names(e) & scaled):
+                    continue
+                # the returned value holds scaled data of one axis
+                while isinstance(e, ast.Subscript):
+                    e = e.value         # selecting events keeps the domain
                 if not isinstance(e, ast.Name):
-                    continue
-                a = ax.ax.get(e.id, set())
-                if len(a) != 1 or e.id not in scaled:
-                    continue
+                    raise AnalysisError(
+                        f"{func.name}: returned expression "
+                        f"`{short(e, 50)}` holds scaled data of one axis in "
+                        f"a shape the back-transform rule cannot classify")
                 (axis,) = a
                 b = backs.get(e.id, [])
                 ok = len(b) == 1 and b[0][1] == {axis} and b[0][3] == e.id
@@ -1097,8 +1121,11 @@ def r123(ctx, repo):
                         raise KeyError(k)
                     return vals.copy()
             mini2 = Mini({"np": np_values()})
+            mini2.bind_module(repo.tree(STAT))
+            me = SelfModel(mini2, repo.cls(STAT, "Statistics"),
+                           name="Mean", req_feature=True)
             try:
-                out = mini2.call(gf, (None, D(), "deform"))
+                out = mini2.call(gf, (me, D(), "deform"))
             except ModelFault as e:
                 bad = bad or str(e)
                 continue
@@ -1435,28 +1462,19 @@ def r126(ctx, repo):
                          "warnings": W(),
                          "downsampling": NS("downsampling",
                                             downsample_grid=grid)})
-            rt = NS("RTDCBase")
-            for st in cls.body:
-                if isinstance(st, ast.FunctionDef) and st.name in (
-                        "_apply_scale", "get_kde_spacing"):
-                    rt.__dict__[st.name] = mini.bind(st)
-            mini.g["RTDCBase"] = rt
+            mini.g["RTDCBase"] = ClassModel(mini, cls)
             n = len(mask)
 
-            class Me:
-                filter = NS("filter", all=Arr(mask, "bool"))
-
+            class Me(SelfModel):
                 def __getitem__(self, k):
                     return Feat(k, n)
 
                 def __len__(self):
                     return n
-            for k, v in rt.__dict__.items():
-                if k != "_name":
-                    setattr(Me, k, staticmethod(v))
+            me = Me(mini, cls, filter=NS("filter", all=Arr(mask, "bool")))
             tag = f"filter {mask}, downsampler keeps {pick}"
             try:
-                res = mini.call(f, (Me(),), dict(
+                res = mini.call(f, (me,), dict(
                     xax="area_um", yax="deform", downsample=3,
                     ret_mask=True))
             except ModelFault as e:
@@ -1766,5 +1784,42 @@ TWINS = list(TWINS) + [
     ("downsampling: mask via flatnonzero of the filter", CORE,
      ("            mids = np.where(self.filter.all)[0]\n",
       "            mids = np.flatnonzero(self.filter.all)\n")),
+]
+
+
+MUTANTS = list(MUTANTS) + [
+    ("downsampling returns the scaled data", CORE,
+     ("            return x[idx], y[idx]\n",
+      "            return xs[idx], ys[idx]\n"), "R12.2"),
+]
+
+TWINS = list(TWINS) + [
+    ("downsampling: returned points in locals, mirrored range test", CORE,
+     [("        if downsample < 0:", "        if 0 > downsample:"),
+      ("        if ret_mask:\n            # Mask is a boolean array",
+       "        xnew = x[idx]\n        ynew = y[idx]\n\n"
+       "        if ret_mask:\n            # Mask is a boolean array"),
+      ("            return x[idx], y[idx], mask",
+       "            return xnew, ynew, mask"),
+      ("            return x[idx], y[idx]\n",
+       "            return xnew, ynew\n")]),
+    ("downsampling: mask translation in a private method", CORE,
+     [("            mask = np.zeros(len(self), dtype=bool)\n"
+       "            mids = np.where(self.filter.all)[0]\n"
+       "            mask[mids] = idx\n",
+       "            mask = self._filtered_mask_to_dataset_mask(idx)\n"),
+      ("    def get_kde_contour(self,",
+       "    def _filtered_mask_to_dataset_mask(self, idx):\n"
+       "        mask = np.zeros(len(self), dtype=bool)\n"
+       "        mids = np.where(self.filter.all)[0]\n"
+       "        mask[mids] = idx\n"
+       "        return mask\n\n"
+       "    def get_kde_contour(self,")]),
+    ("statistics: purge in a private helper method", STAT,
+     [("        bad = np.isnan(x) | np.isinf(x)\n        xout = x[~bad]\n"
+       "        return xout\n",
+       "        return self._finite(x)\n\n"
+       "    @staticmethod\n    def _finite(x):\n"
+       "        bad = np.isnan(x) | np.isinf(x)\n        return x[~bad]\n")]),
 ]
 
